@@ -318,7 +318,7 @@ func C19Plan() *vlib.Plan {
 	p := &vlib.Plan{
 		Property: "C19", Level: "fault_enumeration",
 		Rule:   "E-FAULT over I/O steps: for each shape (plain send/receive, the same on an encrypted stream, typed exchange, plain exchange on a stream whose connection was replaced through SetConnection; client and server side of handshakes {no authentication + encryption, CLAIMTOBE, TOKEN, TOKEN without encryption, resumed session, a negotiation the server must DENY (stalls include the write of that reply), SSL (TLS tunnelled through CEDAR messages, throw-away CA)}) a dry run counts the endpoint's connection operations N; for every k < N the k-th read/write blocks forever and, once the stall is entered, (a) the context is cancelled, (b) a harness-controlled deadline context expires (thorough: also a real 50 ms timeout); plus already-cancelled before the call, cancelled after completion, a never-cancellable context, and a trickling link (the endpoint's reads return at most 1 / 3 / 7 bytes) under Background, TODO and cancellable-but-never-cancelled contexts. Oracle: the call returns (10 s watchdog, the only wall-clock judgement), with an error (errors.Is(err, ctx.Err()) for plain stream operations), the connection was closed; never-cancelled runs equal the baseline. Non-trivial = the stall point was reached.",
-		Assume: []string{"free-running (context.AfterFunc callbacks run on standard-library goroutines); FS/KERBEROS/SCITOKENS shapes excluded (need a mount namespace / a KDC / an issuer)"},
+		Assume: []string{"one case uses real loopback TCP and waits (sleeps) until a 0.4 s / 1.5 s connect deadline has passed - nothing is judged by elapsed time", "free-running (context.AfterFunc callbacks run on standard-library goroutines); FS/KERBEROS/SCITOKENS shapes excluded (need a mount namespace / a KDC / an issuer)"},
 	}
 	p.Gen = func(tier string, yield func(vlib.Case)) {
 		c19BetweenCases(yield)
